@@ -29,15 +29,15 @@ theorem untilBlank_hit (C R : List Char) (h : noBlank C = true) :
     rw [ih h2]
     simp
 
-theorem noBlank_append_line (l X : List Char) (hl : '\n' ∉ l) (hX : noBlank X = true)
-    (hne : l = [] ∨ X = [] ∨ X.head? = some '\n' ∨ True) : noBlank (l ++ X) = true := by
+theorem noBlank_append_line (l X : List Char) (hl : '\n' ∉ l) (hX : noBlank X = true) :
+    noBlank (l ++ X) = true := by
   induction l with
   | nil => simpa using hX
   | cons c tl ih =>
     have hc : c ≠ '\n' := fun h => hl (by simp [h])
     have htl : '\n' ∉ tl := fun h => hl (by simp [h])
     simp only [List.cons_append, noBlank, Bool.and_eq_true, Bool.or_eq_true, bne_iff_ne, ne_eq]
-    exact ⟨Or.inl hc, ih htl (Or.inr (Or.inr (Or.inr trivial)))⟩
+    exact ⟨Or.inl hc, ih htl⟩
 
 theorem noBlank_details (det : List (List Char))
     (h : ∀ d ∈ det, d ≠ [] ∧ '\n' ∉ d) : noBlank (det.flatMap ('\n' :: ·)) = true := by
@@ -52,7 +52,7 @@ theorem noBlank_details (det : List (List Char))
     | cons d0 dt =>
       have hd0 : d0 ≠ '\n' := fun h => hnl (by simp [h])
       have : noBlank ((d0 :: dt) ++ ds.flatMap ('\n' :: ·)) = true :=
-        noBlank_append_line _ _ hnl ih' (Or.inr (Or.inr (Or.inr trivial)))
+        noBlank_append_line _ _ hnl ih'
       simp only [List.cons_append] at this
       simp only [noBlank, List.cons_append, Bool.and_eq_true, Bool.or_eq_true, bne_iff_ne, ne_eq]
       simp only [noBlank, Bool.and_eq_true, Bool.or_eq_true, bne_iff_ne, ne_eq] at this
@@ -84,7 +84,7 @@ theorem matchGroovy_hit (f line col msg : List Char) (pad : Nat) (det : List (Li
     simp only [B0, List.cons_append, List.mem_cons, List.mem_append, not_or]
     exact ⟨by decide, ⟨hlnl, by decide⟩, hm⟩
   have hnb : noBlank (B0 ++ det.flatMap ('\n' :: ·)) = true :=
-    noBlank_append_line _ _ hB0 (noBlank_details det hdet) (Or.inr (Or.inr (Or.inr trivial)))
+    noBlank_append_line _ _ hB0 (noBlank_details det hdet)
   have ht : groovyTail ((B0 ++ det.flatMap ('\n' :: ·)) ++ '\n' :: '\n' :: R)
       = some (B0 ++ det.flatMap ('\n' :: ·), (B0 ++ det.flatMap ('\n' :: ·)).length) := by
     unfold groovyTail
@@ -132,7 +132,7 @@ theorem findAll_render_groovy (is : List Item) (h : ∀ i ∈ is, WFItem .groovy
       have e : unlines (errorHeader .groovyc f l col msg pad :: (det ++ [[]]))
             ++ render .groovyc is
           = errorHeader .groovyc f l col msg pad ++ '\n' :: (unlines det ++ '\n' :: render .groovyc is) := by
-        simp [unlines_cons, unlines_append, unlines]
+        simp [unlines]
       have e2 : errorHeader .groovyc f l col msg pad ++ '\n' :: (unlines det ++ '\n' :: render .groovyc is)
           = (errorHeader .groovyc f l col msg pad ++ det.flatMap ('\n' :: ·)) ++ '\n' :: '\n' :: render .groovyc is := by
         have h1 := line_unlines (errorHeader .groovyc f l col msg pad) det
